@@ -287,7 +287,7 @@ namespace cnl {
                                 + overflow_digits<Rhs, polarity::positive>::value
                         > traits::positive_digits)
                     && ((lhs > Lhs{0}) ? (rhs > Rhs{0}) && (traits::max() / rhs) < lhs
-                                       : (rhs < Rhs{0}) && (traits::max() / rhs) > lhs);
+                                       : (lhs < Lhs{0}) && (rhs < Rhs{0}) && (traits::max() / rhs) > lhs);
             }
         };
 
